@@ -400,6 +400,20 @@ def check(model, rep, tier):
     tasks_clause(model, rep, funcs)
     accumulation_clause(model, rep, funcs)
     clipping_clause(model, rep, funcs)
+    # the workers read their molecules: positions handed out by `Molecules.pos` are the object's own buffer and must not be rescaled in place
+    from .generic import inplace_argument_obligations, functions_in
+    inplace_argument_obligations(model, rep, functions_in(model, ["acryo/simulator.py"]), "1 placement", through_properties=True)
+    rep.floor("PUREARG", 8, "(functions of the simulator)")
+    # the slice / pad algebra of make_slice_and_pad (shared with C02): clipped fragments land where the unclipped template would
+    from .C02 import slice_pad_clause
+    from .common import ClauseView
+    slice_pad_clause(model, ClauseView(rep, "5 clipping"), funcs)
+    # "loading a subtomogram at a simulated molecule returns the template": the loader's window algebra (centre (n-1)/2, shared with C02)
+    from .C02 import window_clause, compose_clause
+    f2 = need_funcs(model, rep, ["acryo/_utils.py::prepare_affine", "acryo/_utils.py::prepare_affine_cornersafe", "acryo/_utils.py::compose_matrices",
+                                 "acryo/_utils.py::make_slice_and_pad"])
+    window_clause(model, ClauseView(rep, "6 load-back"), f2)
+    compose_clause(model, ClauseView(rep, "6 load-back"), f2)
     nc = 0
     for name in ("_simulate", "_simulate_with_color", "simulate_2d", "simulate_projection", "simulate_tilt_series"):
         f = funcs.get(S + "TomogramSimulator." + name)
